@@ -24,6 +24,7 @@ import (
 
 const (
 	maxArrayLen      = 1024 * 1024
+	maxArrayDepth    = 32
 	maxBulkStringLen = 1024 * 1024 * 512
 )
 
@@ -38,6 +39,8 @@ var (
 	ErrBadArrayLen = errors.New("bad array len")
 	// ErrBadArrayLenTooLong too long array len
 	ErrBadArrayLenTooLong = errors.New("bad array len, too long")
+	// ErrBadArrayDepthTooDeep too deep nested array
+	ErrBadArrayDepthTooDeep = errors.New("bad array, nested too deep")
 
 	// ErrBadBulkStringLen for invalid bulk string len
 	ErrBadBulkStringLen = errors.New("bad bulk string len")
@@ -61,6 +64,8 @@ var CRLF = []byte{CR, LF}
 type decoder struct {
 	br  *Reader
 	err error
+	// depth is the nesting depth of the array which is being decoded.
+	depth int
 }
 
 func newDecoder(r io.Reader, bufSize int) *decoder {
@@ -231,14 +236,21 @@ func (d *decoder) decodeArray() ([]RespValue, error) {
 	case n == -1:
 		return nil, nil
 	}
+	// The nesting depth is chosen by the peer, don't let it exhaust the stack.
+	if d.depth >= maxArrayDepth {
+		return nil, ErrBadArrayDepthTooDeep
+	}
 	array := make([]RespValue, n)
+	d.depth++
 	for i := range array {
 		r, err := d.decode()
 		if err != nil {
+			d.depth--
 			return nil, err
 		}
 		array[i] = *r
 	}
+	d.depth--
 	return array, nil
 }
 
